@@ -22,24 +22,26 @@ CONSTANTS Streams, Procs, NEvents,    \* events 1..NEvents; the stream of each i
           M_Recharge,                \* tryDetach re-charges a stream that received events while detaching
           M_SignalOnPut,             \* put wakes the blocked owner (cond.Signal)
           M_UnblockOnlyIfEmpty,      \* tryUnblock injects a time-out only into a stream that is still empty
+          M_UnblockRechecksBlocked,  \* tryUnblock checks (under the stream lock) that the stream is STILL in the blocked list: the heartbeat works on a copy of it
           M_CommitCheckUnderLock     \* stream.commit tests "older than commitSeq" and stores under ONE hold of the stream lock
 
 VARIABLES q, cur, away, com, att, det,        \* per stream
           charged,                            \* LIFO list of streams
           blocked,                            \* set of streams in the blocked list
+          hcopy,                              \* the heartbeat's copy of the blocked list (streams it has not looked at yet)
           nput,                               \* events put so far
           where,                              \* [1..NEvents -> "none" | "queued" | "taken" | "committed"], stream of event in sOf
           sOf, seqOf,
           pc, ps, pe,                         \* processor: pc, stream, event
           panic
 
-vars == <<q, cur, away, com, att, det, charged, blocked, nput, where, sOf, seqOf, pc, ps, pe, panic>>
+vars == <<q, cur, away, com, att, det, charged, blocked, hcopy, nput, where, sOf, seqOf, pc, ps, pe, panic>>
 Ev == 1..NEvents
 TO == 0     \* the time-out pseudo event
 
 Init == /\ q = [s \in Streams |-> <<>>] /\ cur = [s \in Streams |-> 0] /\ away = [s \in Streams |-> 0] /\ com = [s \in Streams |-> 0]
         /\ att = [s \in Streams |-> FALSE] /\ det = [s \in Streams |-> FALSE]
-        /\ charged = <<>> /\ blocked = {} /\ nput = 0
+        /\ charged = <<>> /\ blocked = {} /\ hcopy = {} /\ nput = 0
         /\ where = [e \in Ev |-> "none"] /\ sOf = [e \in Ev |-> CHOOSE s \in Streams : TRUE] /\ seqOf = [e \in Ev |-> 0]
         /\ pc = [p \in Procs |-> "join"] /\ ps = [p \in Procs |-> CHOOSE s \in Streams : TRUE] /\ pe = [p \in Procs |-> -1]
         /\ panic = ""
@@ -52,22 +54,22 @@ Put(s) == /\ nput < NEvents /\ panic = ""
                /\ q' = [q EXCEPT ![s] = Append(@, e)]
                /\ where' = [where EXCEPT ![e] = "queued"]
                /\ charged' = IF q[s] = <<>> /\ ~att[s] THEN Append(charged, s) ELSE charged
-          /\ UNCHANGED <<away, com, att, det, blocked, pc, ps, pe, panic>>
+          /\ UNCHANGED <<away, com, att, det, blocked, pc, ps, pe, panic, hcopy>>
 
 \* joinStream: pop the last charged stream (chargedMu), attach later
 JoinPop(p) == /\ pc[p] = "join" /\ charged # <<>> /\ panic = ""
               /\ ps' = [ps EXCEPT ![p] = charged[Len(charged)]]
               /\ charged' = SubSeq(charged, 1, Len(charged) - 1)
               /\ pc' = [pc EXCEPT ![p] = "attach"]
-              /\ UNCHANGED <<q, cur, away, com, att, det, blocked, nput, where, sOf, seqOf, pe, panic>>
+              /\ UNCHANGED <<q, cur, away, com, att, det, blocked, nput, where, sOf, seqOf, pe, panic, hcopy>>
 
 Attach(p) == /\ pc[p] = "attach"
              /\ LET s == ps[p] IN
-                  IF att[s] THEN panic' = "why attach? processor is already attached" /\ UNCHANGED <<att, pc>>
-                  ELSE IF det[s] THEN panic' = "why attach? processor is detaching" /\ UNCHANGED <<att, pc>>
-                  ELSE IF q[s] = <<>> THEN panic' = "why attach? stream is empty" /\ UNCHANGED <<att, pc>>
+                  IF att[s] THEN panic' = "why attach? processor is already attached" /\ UNCHANGED <<att, pc, hcopy>>
+                  ELSE IF det[s] THEN panic' = "why attach? processor is detaching" /\ UNCHANGED <<att, pc, hcopy>>
+                  ELSE IF q[s] = <<>> THEN panic' = "why attach? stream is empty" /\ UNCHANGED <<att, pc, hcopy>>
                   ELSE att' = [att EXCEPT ![s] = TRUE] /\ pc' = [pc EXCEPT ![p] = "get"] /\ UNCHANGED panic
-             /\ UNCHANGED <<q, cur, away, com, det, charged, blocked, nput, where, sOf, seqOf, ps, pe>>
+             /\ UNCHANGED <<q, cur, away, com, det, charged, blocked, nput, where, sOf, seqOf, ps, pe, hcopy>>
 
 \* tryDetach under s.mu; returns the new <<att, det, charged>> for stream s
 Detach(s, A, D, C, nonEmpty) ==
@@ -84,35 +86,43 @@ Take(p, s) ==   \* stream.get: head of the queue
 InstantGet(p) ==
   /\ pc[p] = "get" /\ panic = ""
   /\ LET s == ps[p] IN
-       IF ~att[s] THEN /\ panic' = "why instant get? stream isn't attached" /\ UNCHANGED <<q, away, where, pe, att, det, charged, pc>>
+       IF ~att[s] THEN /\ panic' = "why instant get? stream isn't attached" /\ UNCHANGED <<q, away, where, pe, att, det, charged, pc, hcopy>>
        ELSE IF q[s] = <<>>
          THEN \* leave(): isDetaching = true; tryDetach()
               /\ LET r == Detach(s, att, [det EXCEPT ![s] = TRUE], charged, FALSE) IN att' = r[1] /\ det' = r[2] /\ charged' = r[3]
               /\ pc' = [pc EXCEPT ![p] = "join"]
-              /\ UNCHANGED <<q, away, where, pe, panic>>
+              /\ UNCHANGED <<q, away, where, pe, panic, hcopy>>
          ELSE /\ (IF det[s] THEN panic' = "why get while detaching?" ELSE UNCHANGED panic)
               /\ Take(p, s)
               /\ \E nxt \in {"get", "fin"} : pc' = [pc EXCEPT ![p] = nxt]     \* passed on to the output, or finalized by an action
-              /\ UNCHANGED <<att, det, charged>>
-  /\ UNCHANGED <<cur, com, blocked, nput, sOf, seqOf, ps>>
+              /\ UNCHANGED <<att, det, charged, hcopy>>
+  /\ UNCHANGED <<cur, com, blocked, nput, sOf, seqOf, ps, hcopy>>
 
 \* blockGet: wait (registered in `blocked`) while the stream is empty
 BlockWait(p) == /\ pc[p] = "blockget" /\ q[ps[p]] = <<>> /\ ps[p] \notin blocked /\ panic = ""
                 /\ blocked' = blocked \cup {ps[p]}
-                /\ UNCHANGED <<q, cur, away, com, att, det, charged, nput, where, sOf, seqOf, pc, ps, pe, panic>>
+                /\ UNCHANGED <<q, cur, away, com, att, det, charged, nput, where, sOf, seqOf, pc, ps, pe, panic, hcopy>>
 BlockGet(p) == /\ pc[p] = "blockget" /\ q[ps[p]] # <<>> /\ panic = ""
                /\ (M_SignalOnPut \/ ps[p] \notin blocked \/ Head(q[ps[p]]) = TO)   \* without the Signal a sleeping owner wakes only on a time-out
                /\ (IF ~att[ps[p]] THEN panic' = "why wait get? stream isn't attached" ELSE UNCHANGED panic)
                /\ Take(p, ps[p])
                /\ blocked' = blocked \ {ps[p]}
                /\ \E nxt \in {"get", "fin"} : pc' = [pc EXCEPT ![p] = IF Head(q[ps[p]]) = TO THEN "get" ELSE nxt]
-               /\ UNCHANGED <<cur, com, att, det, charged, nput, sOf, seqOf, ps>>
+               /\ UNCHANGED <<cur, com, att, det, charged, nput, sOf, seqOf, ps, hcopy>>
 
-\* streamer heartbeat -> tryUnblock on a blocked, still empty stream
-TryUnblock(s) == /\ s \in blocked /\ (q[s] = <<>> \/ ~M_UnblockOnlyIfEmpty) /\ panic = ""
-                 /\ (IF away[s] # com[s] THEN panic' = "why events are different?" ELSE UNCHANGED panic)
-                 /\ q' = [q EXCEPT ![s] = <<TO>>]          \* first = last = time-out event: whatever was queued is overwritten
-                 /\ where' = [e \in Ev |-> IF where[e] = "queued" /\ sOf[e] = s THEN "lost" ELSE where[e]]
+\* streamer heartbeat: first a copy of the blocked list (under blockedMu) ...
+HbCopy == /\ hcopy = {} /\ blocked # {} /\ panic = ""
+          /\ hcopy' = blocked
+          /\ UNCHANGED <<q, cur, away, com, att, det, charged, blocked, nput, where, sOf, seqOf, pc, ps, pe, panic>>
+\* ... then tryUnblock on every stream of the copy, one by one, without any lock in between: the stream may have been served
+\* since the copy.  M_UnblockRechecksBlocked (TRUE = the code since the repair 5b62272): a stream that is no longer blocked is left alone.
+TryUnblock(s) == /\ s \in hcopy /\ panic = ""
+                 /\ hcopy' = hcopy \ {s}
+                 /\ IF (M_UnblockRechecksBlocked => s \in blocked) /\ (q[s] = <<>> \/ ~M_UnblockOnlyIfEmpty)
+                      THEN /\ (IF away[s] # com[s] THEN panic' = "why events are different?" ELSE UNCHANGED panic)
+                           /\ q' = [q EXCEPT ![s] = <<TO>>]          \* first = last = time-out event: whatever was queued is overwritten
+                           /\ where' = [e \in Ev |-> IF where[e] = "queued" /\ sOf[e] = s THEN "lost" ELSE where[e]]
+                      ELSE UNCHANGED <<q, where, panic>>
                  /\ UNCHANGED <<cur, away, com, att, det, charged, blocked, nput, sOf, seqOf, pc, ps, pe>>
 
 \* somebody finalizes a taken event: stream.commit (monotone max) + tryDetach when detaching
@@ -123,25 +133,25 @@ Commit(e) == /\ M_CommitCheckUnderLock
                   /\ IF det[s] /\ away[s] = (IF seqOf[e] < com[s] THEN com[s] ELSE seqOf[e])
                        THEN /\ att' = [att EXCEPT ![s] = FALSE] /\ det' = [det EXCEPT ![s] = FALSE]
                             /\ charged' = IF q[s] # <<>> /\ M_Recharge THEN Append(charged, s) ELSE charged
-                       ELSE UNCHANGED <<att, det, charged>>
+                       ELSE UNCHANGED <<att, det, charged, hcopy>>
              /\ where' = [where EXCEPT ![e] = "committed"]
-             /\ UNCHANGED <<q, cur, away, blocked, nput, sOf, seqOf, pc, ps, pe, panic>>
+             /\ UNCHANGED <<q, cur, away, blocked, nput, sOf, seqOf, pc, ps, pe, panic, hcopy>>
 
 \* the same in two steps (mutant: the stale test is done on the atomic commitSeq BEFORE the lock is taken): another finalization
 \* of the stream can store a bigger sequence number in between, which the store then overwrites
 CommitCheck(e) == /\ ~M_CommitCheckUnderLock
                   /\ where[e] = "taken" /\ panic = "" /\ \A p \in Procs : ~(pc[p] = "fin" /\ pe[p] = e)
                   /\ where' = [where EXCEPT ![e] = IF seqOf[e] < com[sOf[e]] THEN "committed" ELSE "checked"]
-                  /\ UNCHANGED <<q, cur, away, com, att, det, charged, blocked, nput, sOf, seqOf, pc, ps, pe, panic>>
+                  /\ UNCHANGED <<q, cur, away, com, att, det, charged, blocked, nput, sOf, seqOf, pc, ps, pe, panic, hcopy>>
 CommitStore(e) == /\ where[e] = "checked" /\ panic = ""
                   /\ LET s == sOf[e] IN
                        /\ com' = [com EXCEPT ![s] = seqOf[e]]
                        /\ IF det[s] /\ away[s] = seqOf[e]
                             THEN /\ att' = [att EXCEPT ![s] = FALSE] /\ det' = [det EXCEPT ![s] = FALSE]
                                  /\ charged' = IF q[s] # <<>> /\ M_Recharge THEN Append(charged, s) ELSE charged
-                            ELSE UNCHANGED <<att, det, charged>>
+                            ELSE UNCHANGED <<att, det, charged, hcopy>>
                   /\ where' = [where EXCEPT ![e] = "committed"]
-                  /\ UNCHANGED <<q, cur, away, blocked, nput, sOf, seqOf, pc, ps, pe, panic>>
+                  /\ UNCHANGED <<q, cur, away, blocked, nput, sOf, seqOf, pc, ps, pe, panic, hcopy>>
 
 \* an action discards / collapses / holds the event: processor-side finalize (stream.commit), then either the next
 \* event of any stream (not busy) or the next event of THIS stream (busy action -> blockGet)
@@ -152,14 +162,15 @@ ProcFinalize(p) ==
        /\ com' = [com EXCEPT ![s] = IF seqOf[e] < @ THEN @ ELSE seqOf[e]]
        /\ where' = [where EXCEPT ![e] = "committed"]
   /\ \E nxt \in {"get", "blockget"} : pc' = [pc EXCEPT ![p] = nxt]
-  /\ UNCHANGED <<q, cur, away, att, det, charged, blocked, nput, sOf, seqOf, ps, pe, panic>>
+  /\ UNCHANGED <<q, cur, away, att, det, charged, blocked, nput, sOf, seqOf, ps, pe, panic, hcopy>>
 
-Next == \/ \E s \in Streams : Put(s) \/ TryUnblock(s)
+Next == \/ HbCopy
+        \/ \E s \in Streams : Put(s) \/ TryUnblock(s)
         \/ \E p \in Procs : JoinPop(p) \/ Attach(p) \/ InstantGet(p) \/ BlockWait(p) \/ BlockGet(p) \/ ProcFinalize(p)
         \/ \E e \in Ev : Commit(e) \/ CommitCheck(e) \/ CommitStore(e)
 Spec == Init /\ [][Next]_vars
 FairSpec == Spec /\ \A p \in Procs : WF_vars(JoinPop(p) \/ Attach(p) \/ InstantGet(p) \/ BlockGet(p) \/ ProcFinalize(p))
-                 /\ \A e \in Ev : WF_vars(Commit(e) \/ CommitCheck(e) \/ CommitStore(e)) /\ \A s \in Streams : WF_vars(TryUnblock(s))
+                 /\ \A e \in Ev : WF_vars(Commit(e) \/ CommitCheck(e) \/ CommitStore(e)) /\ \A s \in Streams : WF_vars(TryUnblock(s)) /\ WF_vars(HbCopy)
 
 -----------------------------------------------------------------------------
 NoCodePanic == panic = ""
